@@ -8,6 +8,9 @@ from lib.gallina import gbool, glist, gN, gZ
 from lib.gallina import gnat as _gnat
 
 ID = "C12"
+LOG_EXACT = False                # (timing-dependent observables: only the property's predicate is evaluated under DEBUG)
+LOG_SAMPLE = 120
+LOG_LEVEL_INVARIANT = True
 RUN_MODULE = "RunC12"
 DRIVER = "async_driver.py"
 SHARD = 120
